@@ -11,7 +11,7 @@ EXPLANATION = (
     "escape on that vector anywhere); (R4) no pointer-to-integer cast or pointer comparison other than is_null in the "
     "calendar queue's ordering code. "
     '(R1 also covers every other time-ordered list walk of the queue; R3 also requires a single buffer per kind and no push_front.) '
-    '(R2 also: the zero-delay container is filled by add alone; R5, shared with C01.R2) every insertion and look-up derives the bucket from the timestamp by the same expression. '
+    '(R2 also: the zero-delay container is filled by add alone; R5, shared with C01.R2) every insertion and look-up derives the bucket from the timestamp by the same expression, which narrows bounded values only. '
     '(R6, shared with C08.R7) a send for the current instant is walked inline, only a later one becomes an event. '
     '(R2 also: every construction of the calendar queue initialises the bound `add` compares with - the current instant - to the constant zero, whatever start time is configured.) '
     '(R7, shared with C09.R3) what a handler emitted is scheduled before anything the shutdown handling schedules for the same instant. '
